@@ -1,5 +1,5 @@
 //! Shared helpers: CLI args, evidence shards, obligations bookkeeping.
-use std::collections::BTreeMap;
+use std::collections::{BTreeMap, HashMap};
 use std::time::Instant;
 
 use serde_json::{Value, json};
@@ -503,4 +503,150 @@ pub fn rewriter_from(p: u64, hyps: &[Fm], vars_only: bool) -> Rewriter {
         }
     }
     rw
+}
+
+// ---------------------------------------------------------------------------------------------
+// Univariate specialisation: every variable except one is fixed to its shadow value
+// ---------------------------------------------------------------------------------------------
+
+/// Evaluates arena terms as rational functions `num(t)/den(t)` of ONE variable `t` (variable id
+/// `var`), all other variables being replaced by their shadow values. UF applications whose
+/// arguments do not depend on `t` are the constants recorded as their shadows (the value the real
+/// permutation returned on those concrete inputs); UF applications depending on `t` are opaque
+/// (`None`).
+pub struct Uni {
+    pub var: u32,
+    pub p: u64,
+    memo: HashMap<u32, Option<(Vec<u64>, Vec<u64>)>>,
+}
+
+fn up_trim(mut a: Vec<u64>) -> Vec<u64> {
+    while a.len() > 1 && *a.last().unwrap() == 0 {
+        a.pop();
+    }
+    if a.is_empty() {
+        a.push(0);
+    }
+    a
+}
+fn up_add(a: &[u64], b: &[u64], p: u64, sub: bool) -> Vec<u64> {
+    let n = a.len().max(b.len());
+    let mut r = vec![0u64; n];
+    for i in 0..n {
+        let x = a.get(i).copied().unwrap_or(0);
+        let y = b.get(i).copied().unwrap_or(0);
+        r[i] = if sub { submod(x, y, p) } else { addmod(x, y, p) };
+    }
+    up_trim(r)
+}
+fn up_mul(a: &[u64], b: &[u64], p: u64) -> Vec<u64> {
+    let mut r = vec![0u64; a.len() + b.len() - 1];
+    for (i, x) in a.iter().enumerate() {
+        if *x == 0 {
+            continue;
+        }
+        for (j, y) in b.iter().enumerate() {
+            r[i + j] = addmod(r[i + j], mulmod(*x, *y, p), p);
+        }
+    }
+    up_trim(r)
+}
+
+impl Uni {
+    pub fn new(var: u32, p: u64) -> Self {
+        Self { var, p, memo: HashMap::new() }
+    }
+    pub fn eval(&mut self, h: H) -> Option<(Vec<u64>, Vec<u64>)> {
+        let p = self.p;
+        let i = match h {
+            H::C(v) => return Some((vec![v % p], vec![1])),
+            H::N(i) => i,
+        };
+        if let Some(r) = self.memo.get(&i) {
+            return r.clone();
+        }
+        let (node, shadow) = with_arena(|a| (a.nodes[i as usize].clone(), a.shadows[i as usize]));
+        let r: Option<(Vec<u64>, Vec<u64>)> = (|| match node {
+            Node::Var(v) => {
+                if v == self.var { Some((vec![0, 1], vec![1])) } else { Some((vec![shadow], vec![1])) }
+            }
+            Node::Add(a, b) | Node::Sub(a, b) => {
+                let sub = matches!(node, Node::Sub(..));
+                let (na, da) = self.eval(a)?;
+                let (nb, db) = self.eval(b)?;
+                if da == db {
+                    Some((up_add(&na, &nb, p, sub), da))
+                } else {
+                    Some((up_add(&up_mul(&na, &db, p), &up_mul(&nb, &da, p), p, sub), up_mul(&da, &db, p)))
+                }
+            }
+            Node::Mul(a, b) => {
+                let (na, da) = self.eval(a)?;
+                let (nb, db) = self.eval(b)?;
+                Some((up_mul(&na, &nb, p), up_mul(&da, &db, p)))
+            }
+            Node::Neg(a) => {
+                let (na, da) = self.eval(a)?;
+                Some((up_add(&[0], &na, p, true), da))
+            }
+            Node::Inv(a) => {
+                let (na, da) = self.eval(a)?;
+                Some((da, na))
+            }
+            Node::Uf { args, .. } => {
+                for a in args.iter() {
+                    let (n, d) = self.eval(*a)?;
+                    if n.len() > 1 || d.len() > 1 {
+                        return None;
+                    }
+                }
+                Some((vec![shadow], vec![1]))
+            }
+        })();
+        // normalise constant fractions
+        let r = r.map(|(n, d)| {
+            if d.len() == 1 && d[0] != 1 && d[0] != 0 {
+                let inv = invmod(d[0], p);
+                (n.iter().map(|x| mulmod(*x, inv, p)).collect(), vec![1])
+            } else {
+                (n, d)
+            }
+        });
+        if r.as_ref().map(|(n, d)| n.len() + d.len() > 4096).unwrap_or(false) {
+            self.memo.insert(i, None);
+            return None;
+        }
+        self.memo.insert(i, r.clone());
+        r
+    }
+    /// Cross-multiplied difference polynomial of `l == r`, plus the denominators involved.
+    pub fn diff(&mut self, l: H, r: H) -> Option<(Vec<u64>, Vec<Vec<u64>>)> {
+        let (nl, dl) = self.eval(l)?;
+        let (nr, dr) = self.eval(r)?;
+        let d = up_add(&up_mul(&nl, &dr, self.p), &up_mul(&nr, &dl, self.p), self.p, true);
+        let mut dens = Vec::new();
+        for x in [dl, dr] {
+            if x.len() > 1 {
+                dens.push(x);
+            }
+        }
+        Some((d, dens))
+    }
+}
+
+/// SMT-LIB integer term of a univariate polynomial in `t` (Horner form).
+pub fn up_smt(c: &[u64]) -> String {
+    let mut s = format!("{}", c[c.len() - 1]);
+    for k in (0..c.len() - 1).rev() {
+        s = format!("(+ {} (* t {s}))", c[k]);
+    }
+    s
+}
+
+pub fn up_eval(c: &[u64], t: u64, p: u64) -> u64 {
+    let mut acc = 0u64;
+    for k in (0..c.len()).rev() {
+        acc = addmod(mulmod(acc, t, p), c[k], p);
+    }
+    acc
 }
